@@ -7,6 +7,8 @@ package strategy
 
 import (
 	"context"
+	"encoding/json"
+	"fmt"
 	"sync"
 	"time"
 
@@ -51,7 +53,20 @@ func compareNodeResourcesOverwriteMD5Hash(edsName string, replicaset *datadoghqv
 func compareWithExtendedDaemonsetSettingOverwrite(pod *corev1.Pod, node *NodeItem) bool {
 	if node.ExtendedDaemonsetSetting != nil {
 		specCopy := pod.Spec.DeepCopy()
+		edsName := pod.Labels[datadoghqv1alpha1.ExtendedDaemonSetNameLabelKey]
 		for id, container := range specCopy.Containers {
+			// A valid resources annotation on the Node takes precedence over the ExtendedDaemonsetSetting when the
+			// pod is created (see CreatePodFromDaemonSetReplicaSet): the setting must not be expected on this container.
+			// Changes of the annotation itself are detected with compareNodeResourcesOverwriteMD5Hash.
+			if node.Node != nil {
+				annotationKey := fmt.Sprintf(datadoghqv1alpha1.ExtendedDaemonSetRessourceNodeAnnotationKey, pod.Namespace, edsName, container.Name)
+				if val, found := node.Node.GetAnnotations()[annotationKey]; found {
+					var resources corev1.ResourceRequirements
+					if err := json.Unmarshal([]byte(val), &resources); err == nil {
+						continue
+					}
+				}
+			}
 			for _, container2 := range node.ExtendedDaemonsetSetting.Spec.Containers {
 				if container.Name == container2.Name {
 					for key, val := range container2.Resources.Limits {
